@@ -83,13 +83,16 @@ func (g *wgen) mutate() {
 			g.emit("delbad %s", []string{"nil", "empty"}[r.Intn(2)])
 		default:
 			v := wgenValue(r, idx, g.shared)
-			g.emit("upd %x %x 0", key, v)
-			g.emit("weight")
 			v2 := wgenValue(r, idx, g.shared)
 			for string(v2) == string(v) || present && string(v2) == string(old) {
 				v2 = wgenValue(r, idx, g.shared) // (a same-value rewrite would keep the weight 0)
 			}
-			g.upd(idx, v2)
+			g.emit("updzw %x %x %x %d", key, v, v2, wvalWeight(v2)) // both updates in ONE op: nothing can fall in between
+			g.live[key] = v2
+			g.dirty = true
+			if r.Intn(4) == 0 {
+				g.emit("upd %x %x 0", key, v) // the plain spelling is answered by a token and not executed
+			}
 		}
 	default:
 		g.emit("%s %x", g.delOp(), key)
